@@ -570,10 +570,17 @@ int usleep(useconds_t us)
 unsigned int sleep(unsigned int s)
 { REAL(sleep); WAIT_ALARM("sleep"); return real_sleep(s); }
 
+static const char *fopen_hook_suffix; static void (*fopen_hook_fn)(const char *, void *); static void *fopen_hook_arg;
+void vs_set_fopen_hook(const char *suffix, void (*fn)(const char *path, void *arg), void *arg) { fopen_hook_suffix = suffix; fopen_hook_fn = fn; fopen_hook_arg = arg; }
+
 FILE *fopen(const char *path, const char *mode)
 {
     REAL(fopen);
     if (fail_now(VS_FOPEN, -1)) { errno = cur.plan->fail_errno; return NULL; }
+    if (cur.active && fopen_hook_fn && path && fopen_hook_suffix) {
+        size_t lp = strlen(path), ls = strlen(fopen_hook_suffix);
+        if (lp >= ls && !strcmp(path + lp - ls, fopen_hook_suffix)) { void (*fn)(const char *, void *) = fopen_hook_fn; fopen_hook_fn = NULL; fn(path, fopen_hook_arg); }
+    }
     return real_fopen(path, mode);
 }
 
